@@ -59,6 +59,18 @@ theorem noop_sequence (s : State) (now : Nat) (cs : List Cmd)
     rw [ih _ (fun c' hc' => h c' (List.mem_cons_of_mem _ hc'))]
     exact readonly_is_noop s now c (h c (List.mem_cons_self ..))
 
+/-- all-or-nothing for the multi-key conditional write: MSETNX that answers 0 (some key existed,
+    whichever position it has in the argument list) has written none of the pairs -/
+theorem msetnx_all_or_nothing (s : State) (now : Nat) (kvs : List (Nat × BS))
+    (h : (step s now (.msetnx kvs)).2 = .int 0) : view (step s now (.msetnx kvs)).1 now = view s now := by
+  unfold step at *
+  simp only [exec, execMSetNx] at *
+  split at h
+  · rename_i hc
+    simp only [hc, if_true]
+    exact view_purge s now
+  · simp at h
+
 /-! ## non-vacuity: concrete failing commands in a state with mixed types and a deadline -/
 
 /-- a = "10" (deadline 2000), b = list ["x"], c = "abc" -/
@@ -80,6 +92,19 @@ example : (step st0 1000 (.set 1 [118] .always (.ex 0) false)).2 = .err .invalid
 example : (step st0 1000 (.rename 9 1)).2 = .err .noSuchKey := by decide
 -- the failing command really is a no-op on the visible keyspace (instance of the theorem)
 example : view (step st0 1000 (.incr 2)).1 1000 = view st0 1000 := by decide
+-- two-key command whose SECOND key is at fault: the source list keeps its element
+example : (step st0 1000 (.rpoplpush 2 1)).2 = .err .wrongType ∧
+    view (step st0 1000 (.rpoplpush 2 1)).1 1000 = view st0 1000 := by decide
+example : (step st0 1000 (.lmove 2 3 .left .right)).2 = .err .wrongType := by decide
+-- multi-element commands on a key of the wrong type
+example : (step st0 1000 (.sadd 2 [5, 6, 7])).2 = .err .wrongType := by decide
+example : (step st0 1000 (.hset 1 [(5, [1]), (6, [2])])).2 = .err .wrongType := by decide
+example : (step st0 1000 (.zadd 3 ⟨false, false, false, false, false⟩ [([1], .fin 1), ([2], .pinf)])).2 = .err .wrongType := by decide
+-- bad index, bad score bound, HINCRBY on a non-integer field
+example : (step st0 1000 (.lset 2 5 [1])).2 = .err .indexRange := by decide
+example : (step st0 1000 (.zcount 2 none (some ⟨false, .pinf⟩))).2 = .err .notFloat := by decide
+-- MSETNX with the third pair at fault writes nothing
+example : (step st0 1000 (.msetnx [(8, [1]), (9, [2]), (3, [3])])).2 = .int 0 := by decide
 -- read-only commands with non-trivial replies
 example : (step st0 1000 (.ttl 1)).2 = .int 1 := by decide
 example : (step st0 1000 (.mget [1, 2, 3])).2 = .arr [.bulk [49, 48], .nil, .bulk [97, 98, 99]] := by decide
